@@ -584,8 +584,15 @@ def get_bs_cached(cols, basis_dir=None, legendre_orders=[0, 2],
         if os.path.exists(path_to_basis_file):
             if verbose:
                 print('loading {} ...'.format(path_to_basis_file))
-            remember(np.load(path_to_basis_file))
-            return _basis
+            basis = np.load(path_to_basis_file)
+            # expected shape, see _bs_linbasex()
+            n = cols // 2 + 1
+            NP = max(len(range(0, n, radial_step)) - clip, 0)
+            if basis.shape == (len(proj_angles) * cols,
+                               len(legendre_orders) * NP):
+                remember(basis)
+                return _basis
+            print('Cached basis file incompatible.')
 
     if verbose:
         print("A suitable basis for linbasex was not found.\n"
